@@ -7,7 +7,7 @@ from proto import T
 
 RULE = ('random render-distinct trees (depth <= 4, arity 2-5, WITH pairs, multi-word keys whose order differs between tuple and '
         'string comparison; one tree in seven over keys that differ only in how a number is written: leading zeros, digit runs of other lengths, a non-ASCII digit, a ligature) and 1-4 random rewrites of each (permute, regroup by associativity, repeat an operand, add an operand '
-        'absorbed by a single license, anywhere in the tree); Spec on the real code: simplify is idempotent, all rewrites give the '
+        'absorbed by a single license, anywhere in the tree); one object in three has had simplify(sort=False) called on it before; Spec on the real code: simplify is idempotent, all rewrites give the '
         'same text, and the result has no operand of its node\'s kind, no two equal operands, and operands ascending under the '
         'implementation\'s own <; correspondence: the full result (order included) with the model. The two listed known findings '
         '(render-colliding operands) are replayed first; 40 % of the trees mix plain symbols with wrappers around user objects. non-trivial = a rewrite changed the tree; distinct by tree')
@@ -47,6 +47,9 @@ class Prop(BaseProp):
         import random as _random
         wr = _random.Random(case['wrap']) if case.get('wrap') is not None else None
         e = impl.build_tree(tree, rng=wr)
+        if len(repr(tree)) % 3 == 1 and tree[0] in ('and', 'or'):
+            # one object in three has been simplified without sorting before: what the plain call returns must not depend on it
+            e.simplify(sort=False)
         r = e.simplify()
         rt = impl.tree_c(r)
         text = str(r)
